@@ -105,6 +105,24 @@ def m_to_string(P, c, args, dt):
     return ok(StringV(json_emit(P, args[0], ty, c.method.endswith('pretty'))))
 
 
+@model('serde_json::to_value', 'serde_json::value::to_value')
+def m_to_value(P, c, args, dt):
+    """json! leaves: the value is carried opaquely (contexts handed to logging / telemetry)"""
+    return ok(Opaque('JsonValue', tgt(args[0])))
+
+
+@model('serde_json::Map::new')
+def m_json_map_new(P, c, args, dt):
+    return MapV('btree', [], 'map')
+
+
+@model('serde_json::Map::insert')
+def m_json_map_insert(P, c, args, dt):
+    m = tgt(args[0])
+    m.ent.append([args[1], args[2]])
+    return none()
+
+
 @model('serde_json::to_vec', 'serde_json::to_vec_pretty')
 def m_to_vec(P, c, args, dt):
     ty = c.gen[0] if c.gen else ''
